@@ -34,7 +34,9 @@ abbrev Str := List Nat
 /-- `http.Header`: distinct keys, each with its value list. -/
 abbrev HMap := List (Str × List Str)
 
-def str (s : String) : Str := s.toUTF8.toList.map (·.toNat)
+/-- ASCII string literal → bytes (`String.toList` reduces in the kernel, `toUTF8` does not; every
+literal in this file is ASCII, where code points and UTF-8 bytes coincide). -/
+def str (s : String) : Str := s.toList.map (·.toNat)
 
 /-! ## ASCII helpers -/
 
@@ -351,10 +353,16 @@ def encodeHeaderFields (h : HMap) (keys : Option (List Str)) : List Field :=
     else ((h.get k).filter (fun v => validHeaderFieldValue v &&
             (!(lk == str "transfer-encoding") || v == str "trailers"))).map (fun v => ⟨lk, v⟩))
 
-/-- `rws.trailers` after `declareTrailer` for the announced keys and `promoteUndeclaredTrailers`. -/
+/-- `rws.trailers` when the trailers are written. `promoteUndeclaredTrailers` (which also sorts)
+runs at the top of the `writeChunk` call made at handler return; the announced keys
+(`Trailer` header) are declared a few lines further down, in the `writeChunk` call that sends the
+header. If that is the same call (`doneAtHeader`), the announced keys are appended after the sort. -/
 def Resp.trailerKeys (r : Resp) : List Str :=
-  let ks := dedup ((r.declTrailers.map (fun e => canonKey e.1)) ++ (r.undeclTrailers.map (fun e => canonKey e.1)))
-  if ks.length > 1 then sortBy strLt ks else ks
+  let decl := r.declTrailers.map (fun e => canonKey e.1)
+  let und := r.undeclTrailers.map (fun e => canonKey e.1)
+  let sortIfMany (ks : List Str) : List Str := if ks.length > 1 then sortBy strLt ks else ks
+  if r.doneAtHeader then dedup (sortIfMany (dedup und) ++ decl)
+  else sortIfMany (dedup (decl ++ und))
 
 /-- `handlerHeader` restricted to trailer keys at handler return. -/
 def Resp.trailerMap (r : Resp) : HMap :=
